@@ -136,8 +136,13 @@ def rule_r2_r3_r4(ctx):
             level.setdefault(kind, (i, f))
     ctx.tables["parser_tiers"] = [f"{f.name}:{sorted(ops)}" for f, ops, _ in chain]
     need = ["+", "-", "*", "/", "//", "%", "**", "unary-"]
-    for k in need:
-        ctx.require(k in level, f"parser tier for {k!r} not recognised")
+    missing = [k for k in need if k not in level]
+    for k in missing:
+        ctx.check("R4", f"operator {k!r} has a parser tier", False, chain[0][0], chain[0][0].node,
+                  f"no parser tier consumes {k!r}: expressions the printer emits with it cannot be parsed back",
+                  how="operator sets of the _parse_* chain", construct=f"no tier for {k}", nontrivial=False)
+    if missing:
+        return
     p = ctx.repo.module(SYM)
 
     def lv(k):
